@@ -101,6 +101,9 @@ type ConfEval struct {
 	Amount *big.Int
 	Path   string // validated | root-shortcut | loaded
 	Tight  bool
+	// CheckpointOverdrawn: the issuer's net flow over the checkpointed vertices is negative (it was overdrawn across
+	// merged branches before a truncation, C02 known finding); the checkpoint cannot carry that debt
+	CheckpointOverdrawn bool
 }
 
 // Node is one real AccountingBook with its monitor state.
@@ -481,7 +484,9 @@ func (w *World) DeliverCancelled(n *Node, v *accountant.Vertex, tag string) erro
 		n.Orphans[v.Hash] = true
 	}
 	w.Logf("%s.deliver-cancelled-ctx[%s] vrx=%s (L=%s R=%s) => %v", n.Name, tag, Hex(v.Hash), Hex(v.LeftParentHash), Hex(v.RightParentHash), errStr(err))
-	w.Observe(n, OpInfo{Kind: "deliver", OK: err == nil, Err: err, Offered: v})
+	if !w.Quiet {
+		w.Observe(n, OpInfo{Kind: "deliver", OK: err == nil, Err: err, Offered: v})
+	}
 	return err
 }
 
